@@ -107,6 +107,9 @@ def generate(rng, prop, tier):
     }
     max_dt = MAXDT_MENU[cfg["max_dt_index"]]
     cfg["max_dt_sec"] = fx(max_dt)
+    # another managed filter with a DIFFERENT maximum step lives in the same process and moves through the same times first
+    # (state shared between instances / carried across calls must not leak into this one)
+    cfg["sibling_max_dt_index"] = rng.choice([i for i in range(len(MAXDT_MENU)) if i != cfg["max_dt_index"]]) if rng.random() < 0.25 else None
     t0 = rng.choice([0.0, 0.0, 1.0, -3.5, 100.0, 1234.5678, -99999.0, 86400.0, rng.uniform(-1e5, 1e5)])
     init = {"time": fx(t0), "state_tok": rng.getrandbits(63), "cov_tok": rng.getrandbits(63), "cal_id": rng.randrange(1, 1000)}
     if cfg["generator"] == "des":
@@ -324,6 +327,17 @@ def run_py(schedule, plan):
 
     cfg, init = schedule["config"], schedule["init"]
     max_dt = xf(cfg["max_dt_sec"])
+    if cfg.get("sibling_max_dt_index") is not None:
+        sib = StandIn(MAXDT_MENU[cfg["sibling_max_dt_index"]], 1 if cfg["has_control"] else 0)
+        sib.budget = 3000
+        smf = ManagedFilter(sib, xf(init["time"]), Tok(1), Tok(2))
+        for op in schedule["ops"]:
+            sib.calls = []
+            try:
+                smf.tick(xf(op["t_out"]), control=Ctl(op["control"]) if op["control"] is not None else None,
+                         readings=[StampedReading(xf(r["t"]), f"s{r['sensor']}", rid=r["rid"]) for r in (op.get("readings") or [])])
+            except Exception:  # noqa: BLE001
+                pass
     si = StandIn(max_dt, 1 if cfg["has_control"] else 0)
     mf = ManagedFilter(si, xf(init["time"]), Tok(init["state_tok"]), Tok(init["cov_tok"]), calibration_map={"cal": init["cal_id"]} if cfg["has_cal"] else None)
     ticks = []
@@ -625,6 +639,8 @@ def execute(schedule) -> Result:
         res.stats[f"probe:tag_control={int(cfg['has_control'])}_calibration={int(cfg['has_cal'])}"] += 1
     res.stats[f"probe:max_dt={xf(cfg['max_dt_sec'])}"] += 1
     res.stats["probe:generator_" + cfg["generator"]] += 1
+    if cfg.get("sibling_max_dt_index") is not None:
+        res.stats["fault:sibling_filter"] += 1
     for f in schedule.get("faults", []):
         res.stats["fault:" + f] += 1
     return res
